@@ -16,7 +16,7 @@ from . import runner
 from .prng import derive
 
 VERIF = runner.VERIF
-EVIDENCE = os.path.join(VERIF, "evidence")
+EVIDENCE = os.environ.get("VERIF_EVIDENCE_DIR") or os.path.join(VERIF, "evidence")
 KNOWN = os.path.join(VERIF, "known_findings.json")
 
 TIERS = {
